@@ -162,7 +162,9 @@ func NumberOfInducedPaths(g Graph, maxLength int) []int {
 
 				options := sortints.SetMinus(h.Neighbours(p.p[len(p.p)-1]), p.bannedNeighbours)
 
-				r[p.length+1] += len(options)
+				if p.length < maxLength {
+					r[p.length+1] += len(options)
+				}
 
 				if p.length >= maxLength-1 {
 					continue
